@@ -1,6 +1,7 @@
 package rules
 
 import (
+	"fmt"
 	"go/constant"
 	"go/token"
 	"go/types"
@@ -118,6 +119,7 @@ func c10(c *Ctx) {
 	defer c.recursionDepthPaired("R10.6")
 	defer c.fixedDigitsUnconstrained("R10.7")
 	defer c.keywordFlagsAreOpaque("R10.8")
+	defer c.noLengthLimitsInTheParser("R10.9")
 	P, R := c.P, c.R
 	R.Explain("R10.1", "case folding (flow): in imap/command every string comparison (==, !=, switch case) against a constant that contains a letter has a lower-case constant and a dynamic side all of whose producers are lower-casing operations (strings.ToLower, rfcparser.String.ToLower, bytes collected through ByteToLower), or uses strings.EqualFold; every command-registry lookup key is lowered; the case-sensitive Parser.ConsumeBytes is never called with a letter; byte comparisons against a letter constant compare a ByteToLower result.")
 	R.Explain("R10.3", "T-EXHAUST: every type implementing command.Builder is registered in Parser.commands or UIDCommandParser.commands (or dispatched explicitly), registry keys are lower-case, and every command.Payload type has a case in the session dispatch (handleCommand / handleWithMailbox / handleUID / serve / command reader).")
@@ -693,4 +695,100 @@ func tokenTypeName(c *Ctx, k *ssa.Const) string {
 		}
 	}
 	return ""
+}
+
+// noLengthLimitsInTheParser (R10.9): the grammar has no length limits, so the parser has none.
+func (c *Ctx) noLengthLimitsInTheParser(rule string) {
+	P, R := c.P, c.R
+	R.Explain(rule, "no argument is refused for its length: in imap/command no error return is control-dependent on a comparison of len(<parsed string or list>) with a constant >= 2 (emptiness tests are fine).  RFC 3501's grammar puts no length on atoms, strings, lists or the fields of ID; size caps that protect the server live in the literal reader (C11), not in the command grammar.  A cap written into a production - even one taken from an RFC's advice to clients - turns a boundary case into BAD (an ID field name of exactly 30 octets with `>=`); the rule reports any such cap, whatever its constant.")
+	n := 0
+	for _, f := range c.funcsInPkg("imap/command") {
+		bad := ""
+		for _, b := range f.Blocks {
+			iff := engine.IfOf(b)
+			if iff == nil {
+				continue
+			}
+			// does the condition compare a len(...) with a constant >= 2 ?
+			isLenLimit := false
+			seen := map[ssa.Value]bool{}
+			var walk func(v ssa.Value, d int)
+			walk = func(v ssa.Value, d int) {
+				if v == nil || seen[v] || d > 6 {
+					return
+				}
+				seen[v] = true
+				switch t := v.(type) {
+				case *ssa.BinOp:
+					switch t.Op {
+					case token.LSS, token.LEQ, token.GTR, token.GEQ, token.EQL, token.NEQ:
+						for _, pair := range [][2]ssa.Value{{t.X, t.Y}, {t.Y, t.X}} {
+							if call, ok := pair[0].(*ssa.Call); ok {
+								if bi, ok := call.Call.Value.(*ssa.Builtin); ok && bi.Name() == "len" {
+									if k, ok := pair[1].(*ssa.Const); ok && k.Value != nil && k.Value.Kind() == constant.Int && k.Int64() >= 2 {
+										isLenLimit = true
+									}
+								}
+							}
+						}
+					default:
+						walk(t.X, d+1)
+						walk(t.Y, d+1)
+					}
+				case *ssa.UnOp:
+					walk(t.X, d+1)
+				case *ssa.Phi:
+					for _, e := range t.Edges {
+						walk(e, d+1)
+					}
+				}
+			}
+			walk(iff.Cond, 0)
+			if !isLenLimit {
+				continue
+			}
+			for _, ret := range engine.Returns(f) {
+				lr := engine.LastResult(ret)
+				if lr == nil || lr.Type().String() != "error" || engine.IsNilConst(lr) {
+					continue
+				}
+				if controlDependent(b, ret.Block()) {
+					bad = P.Pos(iff.Cond.Pos())
+				}
+			}
+		}
+		if bad != "" {
+			n++
+			R.Check(false, rule, c.name(f)+"|no length cap", bad, "", "a parsed argument is refused because of its length ("+bad+"): a syntactically valid command is answered BAD")
+		}
+	}
+	R.Check(true, rule, "imap/command|scanned", "-", fmt.Sprintf("%d functions scanned, %d with a length cap", len(c.funcsInPkg("imap/command")), n), "")
+}
+
+// controlDependent: target is inevitable from exactly one successor of the branch in b.
+func controlDependent(b, target *ssa.BasicBlock) bool {
+	if len(b.Succs) != 2 {
+		return false
+	}
+	inev := func(s *ssa.BasicBlock) bool {
+		seen := map[*ssa.BasicBlock]bool{}
+		ok := true
+		var walk func(x *ssa.BasicBlock)
+		walk = func(x *ssa.BasicBlock) {
+			if seen[x] || !ok || x == target {
+				return
+			}
+			seen[x] = true
+			if len(x.Succs) == 0 {
+				ok = false
+				return
+			}
+			for _, y := range x.Succs {
+				walk(y)
+			}
+		}
+		walk(s)
+		return ok
+	}
+	return inev(b.Succs[0]) != inev(b.Succs[1])
 }
